@@ -1,5 +1,5 @@
 import sys, json, time
-sys.path.insert(0, '/verif/mirvc')
+sys.path.insert(0, __import__('os').path.dirname(__import__('os').path.abspath(__file__)))
 sys.setrecursionlimit(10000)
 import mirparse, vc
 
